@@ -17,6 +17,9 @@ func FloatValueApprox(fraction, margin float64) Value {
 		if fx == fy || (math.IsNaN(fx) && math.IsNaN(fy)) {
 			return true, true // also for infinities and NaN, where the difference below is NaN
 		}
+		if math.IsInf(fx, 0) || math.IsInf(fy, 0) {
+			return false, true // an infinity is close to nothing but itself (+Inf and -Inf passed the relative margin)
+		}
 		relMarg := fraction * math.Min(math.Abs(fx), math.Abs(fy))
 		return math.Abs(fx-fy) <= math.Max(margin, relMarg), true
 	}
